@@ -6,7 +6,7 @@ C11 driver.
                                             splitNL/lexLine/parseFile, says what the file says)
   accept-asm <cfg> <file> <output-hex> <n> fn* → ok | bad-…   (decoded object code: instruction order per
                                             symbol and branch targets against the label binding)
-     fn := <sym-hex> <argsize> <nosplit 0/1> <n> (line addr target+1)* <n> (instrIdx label-hex)* <n> (label-hex instrIdx)*
+     fn := <sym-hex> <argsize> <locals> <nosplit 0/1> <n> (line addr target+1)* <n> (instrIdx label-hex)* <n> (label-hex instrIdx)*
 -/
 import AvoVerif.Drv.Print
 import AvoVerif.Gen.TextFlags
@@ -72,6 +72,7 @@ structure Ent where
 structure AsmFn where
   sym : Txt
   args : Int
+  locals : Int
   nosplit : Bool
   ents : List Ent
   branches : List (Nat × Txt)
@@ -96,11 +97,12 @@ def ltTok : P (Txt × Nat) := fun ts => do
 def asmFnTok : P AsmFn := fun ts => do
   let (sym, ts) ← txtTok ts
   let (args, ts) ← intTok ts
+  let (locals, ts) ← intTok ts
   let (nosplit, ts) ← boolTok ts
   let (ents, ts) ← listOf entTok ts
   let (brs, ts) ← listOf brTok ts
   let (lts, ts) ← listOf ltTok ts
-  some (⟨sym, args, nosplit, ents, brs, lts⟩, ts)
+  some (⟨sym, args, locals, nosplit, ents, brs, lts⟩, ts)
 
 /-- Per function of the implementation's text: line number of the TEXT line and
 of every instruction line (1-based). -/
@@ -155,6 +157,8 @@ def acceptAsmFn (f : Function) (ln : Nat × List Nat) (a : AsmFn) : Option Strin
   -- without a positive argument size the TEXT line has no `-args` and the object says "unknown" (-1)
   if (if f.args > 0 then a.args != f.args else a.args > 0) then some "bad-object-argsize" else
   if f.attrs.getLsbD 2 && !a.nosplit then some "bad-object-nosplit" else
+  -- the object's frame is the TEXT line's, plus the saved frame pointer when there is a frame
+  if !(a.locals == f.frame || (f.frame > 0 && a.locals == f.frame + 8)) then some "bad-object-frame" else
   let groups := groupEnts (a.ents.filter (fun e => e.line != ln.1))
   if groups.map (·.1) != ln.2 then some "bad-instruction-sequence" else
   let binding := labelsFrom f.nodes 0
